@@ -86,6 +86,9 @@ async def update() -> None:
             except core_ports.SkipRead:
                 continue  # read explicitly skipped
             except Exception as e:
+                if not port.is_enabled():
+                    continue  # disabled while being read (e.g. its read transform refuses a disabled port): not an error
+
                 logger.error('failed to read value from %s: %s', port, e, exc_info=True)
                 _ports_with_read_error.add(port)
 
